@@ -78,8 +78,8 @@ impl Prop for C19 {
 
     fn strategy(_leg: &str, _tier: Tier) -> BoxedStrategy<Case> {
         (
-            1..=12_usize,
-            vec((any::<u16>(), any::<u8>()), 12),
+            prop_oneof![12 => 1..=12_usize, 2 => 13..=140_usize, 1 => proptest::sample::select(vec![33_usize, 34, 64, 65, 66, 128, 129, 257])],
+            vec((any::<u16>(), any::<u8>()), 257),
             any::<u8>(),
             any::<u16>(),
             any::<u64>(),
@@ -93,8 +93,9 @@ impl Prop for C19 {
                         let (r, k) = raw[v];
                         match shape % 5 {
                             // tree-like: predecessor smaller than v, roots None
+                            // (rarely a root when the vector is long: long chains)
                             0 => {
-                                if v == 0 || k % 5 == 0 {
+                                if v == 0 || (k % 5 == 0 && (n <= 12 || k % 64 == 0)) {
                                     None
                                 } else {
                                     Some(gen::idx(r, v))
@@ -104,6 +105,14 @@ impl Prop for C19 {
                             1 => Some((v + 1) % n),
                             // rho: path into a cycle
                             2 => Some(if v == 0 { gen::idx(r, n) } else { v - 1 }),
+                            // long vectors: a scrambled descending chain (visits ids far apart)
+                            3 if n > 12 => {
+                                if v == 0 {
+                                    None
+                                } else {
+                                    Some((v * 37 + 11) % v)
+                                }
+                            }
                             // arbitrary, self-references included
                             _ => {
                                 if k % 6 == 0 {
